@@ -220,12 +220,26 @@ func (c *conformer) run(env *core.Env) int {
 		if r.RandBase >= 0 {
 			bin = env.Verif
 		}
-		got := core.Spawn{Bin: bin}.Run(r)
 		a := fmt.Sprintf("exit=%d\nout=%s\nerr=%s", cs.Got.Exit, blankTS(cs.Got.Out), sortParts(blankTS(cs.Got.Err)))
-		b := fmt.Sprintf("exit=%d\nout=%s\nerr=%s", got.Exit, blankTS(got.Out), sortParts(blankTS(got.Err)))
 		a = strings.ReplaceAll(a, cs.Root, "<ROOT>")
-		b = strings.ReplaceAll(b, root, "<ROOT>")
+		spawn := func() string {
+			got := core.Spawn{Bin: bin}.Run(r)
+			b := fmt.Sprintf("exit=%d\nout=%s\nerr=%s", got.Exit, blankTS(got.Out), sortParts(blankTS(got.Err)))
+			return strings.ReplaceAll(b, root, "<ROOT>")
+		}
+		b := spawn()
 		if a != b {
+			// Is it the harness, or do the commands themselves answer differently from run to run on this store? The
+			// spawned request up to 8 more times on the re-materialised store: if the spawned binary disagrees with
+			// itself, or agrees with the server after all, the difference is not the server's (the checks' own
+			// confirmation, which counts reproductions, decides what is reported).
+			for k := 0; k < 8; k++ {
+				cs.Store.Materialize(root)
+				if b2 := spawn(); b2 != b || b2 == a {
+					conformanceVaried.Add(1)
+					return
+				}
+			}
 			bad.Add(1)
 			firstMu.Lock()
 			if first == "" {
@@ -234,11 +248,17 @@ func (c *conformer) run(env *core.Env) int {
 			firstMu.Unlock()
 		}
 	})
+	if v := conformanceVaried.Load(); v > 0 {
+		env.Logf("conformance: in %d case(s) the spawned binary did not repeat its own answer on the same store (not counted as a harness fault)", v)
+	}
 	if bad.Load() > 0 {
 		env.HarnessError("conformance: %d of %d traces differ between the in-process server and spawned binaries; first:\n%s", bad.Load(), len(c.cases), first)
 	}
 	return len(c.cases)
 }
+
+// conformanceVaried counts conformance cases in which the spawned binary did not repeat its own answer.
+var conformanceVaried atomic.Int64
 
 var idRe = regexp.MustCompile(`\b[A-Z2-7]{6}\b`)
 
